@@ -192,8 +192,15 @@ func VH_heapq_Step() {
 		vs := vMkData(m, 200)
 		q.Set(vs)
 		vCover("set")
-		vCheckQueue(q, vs, dir, "Set")
-		held = vs
+		held = append([]vElem{}, vs...)
+		// Set copies its argument: the caller may reuse the slice
+		for i, j := 0, len(vs)-1; i < j; i, j = i+1, j-1 {
+			vs[i], vs[j] = vs[j], vs[i]
+		}
+		if len(vs) > 0 {
+			vs[0] = vElem{}
+		}
+		vCheckQueue(q, held, dir, "Set")
 	case 4: // Reorder to the opposite direction
 		if dir > 0 {
 			q.Reorder(vCmpDesc)
@@ -239,6 +246,12 @@ func VH_heapq_Sort() {
 	n := vCase("n")
 	cmp, dir := vPickCmp()
 	data := vMkData(n, 100)
+	if sp := vCase("spare"); sp > 0 {
+		// a short filled prefix of a much larger buffer
+		back := make([]vElem, n, n+sp)
+		copy(back, data)
+		data = back
+	}
 	orig := append([]vElem{}, data...)
 	Sort(cmp, data)
 	vCover("sorted")
